@@ -350,7 +350,7 @@ def make_world(seed, index, family=None, n_sentences=None, max_len=6, rich_token
         words = [f'w{sid}x{i}' for i in range(n)]
         sentences.append({
             'words': words, 'tag': arr_to_hex(tag), 'dep': arr_to_hex(dep), 'style': style,
-            'rich': bool(rich_tokens),
+            'rich': bool(rich_tokens), 'favoured': favoured,
         })
     if spec['kind'] == 'real' and spec.get('roots_mode') == 'derivable' and derivable:
         extra = list(dict.fromkeys(derivable))
